@@ -181,6 +181,7 @@ type Step struct {
 	Queued bool      `json:"queued,omitempty"` // commit: a batch was queued
 	Evs    []Ev      `json:"evs,omitempty"`    // commit: abstract events of the batch (stable-sorted by t,s,i)
 	Close  []int     `json:"close,omitempty"`  // commit: tokens named by the closeSubscription event
+	Silent []Ev      `json:"silent,omitempty"` // commit: row changes of the query results that no event of the batch announces
 	Q      []Content `json:"q,omitempty"`      // commit/restore: all query results afterwards
 	Did    bool      `json:"did,omitempty"`    // pub: something was published
 	ReqIdx uint64    `json:"reqidx,omitempty"` // sub: index in the request (the materializer's index)
@@ -209,8 +210,8 @@ type Case struct {
 	Bufs    int      `json:"bufs"`
 	Snaps   int      `json:"snaps"`
 	QueueN  int      `json:"queue_n"`
-	Oracle  string   `json:"oracle"`
-	Fail    *Failure `json:"fail,omitempty"`
+	Oracle  string    `json:"oracle"` // "" or kind:cause of every distinct oracle failure, joined by ";"
+	Fails   []Failure `json:"fails,omitempty"`
 	NVals   int      `json:"nvals"`
 	Mode    string   `json:"mode"`
 	Cache   bool     `json:"cache"` // snapshot cache enabled (snapCacheTTL != 0)
@@ -241,6 +242,7 @@ type World struct {
 	clients map[int]*Client
 	vals    map[string]int
 	authz   acl.Authorizer
+	lastQ   map[TS][]KV
 }
 
 type raftHandle struct {
@@ -283,7 +285,7 @@ func (w *World) cur() *state.Store { return w.f.State() }
 func (w *World) close() { w.cancel() }
 
 func newWorld(cacheTTL time.Duration) *World {
-	w := &World{clients: map[int]*Client{}, vals: map[string]int{}, idx: 1, authz: acl.ManageAll()}
+	w := &World{clients: map[int]*Client{}, vals: map[string]int{}, idx: 1, authz: acl.ManageAll(), lastQ: map[TS][]KV{}}
 	w.pub = stream.NewEventPublisher(cacheTTL)
 	w.f, w.cancel = newFSM(w.pub)
 	return w
@@ -656,6 +658,18 @@ func (w *World) doCommit(st *Step) {
 		sort.Ints(st.Close)
 	}
 	st.Q = w.queryAll()
+	// what the batch does not announce: (previous rows + events) vs the new rows, per subject
+	seenSilent := map[Ev]bool{}
+	for _, q := range st.Q {
+		for _, e := range diffRows(q.TS.T, applyEvs(q.TS, w.lastQ[q.TS], st.Evs), q.Rows) {
+			if !seenSilent[e] {
+				seenSilent[e] = true
+				st.Silent = append(st.Silent, e)
+			}
+		}
+		w.lastQ[q.TS] = q.Rows
+	}
+	sortEv(st.Silent)
 }
 
 func short(s string) string {
@@ -678,13 +692,20 @@ func (w *World) doRestore(st *Step) {
 			st.Err = short(err.Error())
 		}
 	}
+	if idx > w.idx {
+		w.idx = idx // the raft index is never behind the index of an installed snapshot
+	}
 	snap, err := tmp.Snapshot()
 	must(err)
 	sink := &memSink{}
 	must(snap.Persist(sink))
 	snap.Release()
 	must(w.f.Restore(io.NopCloser(bytes.NewReader(sink.Bytes()))))
+	st.Idx = w.idx
 	st.Q = w.queryAll()
+	for _, q := range st.Q {
+		w.lastQ[q.TS] = q.Rows
+	}
 }
 
 func (w *World) subscribeRequest(ts TS, tok int, index uint64) *stream.SubscribeRequest {
@@ -880,13 +901,11 @@ func runCase(id int, gen string, steps []Step, cache bool, drain bool) Case {
 	}
 	c.Bufs, c.Snaps = w.pub.VerifTopicBuffers()
 	c.QueueN = w.pub.VerifQueued()
-	f := oracle(out)
-	if f == nil && drain {
-		f = finalCheck(out)
+	c.Fails = oracle(out, drain)
+	var names []string
+	for _, f := range c.Fails {
+		names = append(names, f.Kind+":"+f.Cause)
 	}
-	if f != nil {
-		c.Fail = f
-		c.Oracle = f.Kind + ":" + f.Cause
-	}
+	c.Oracle = strings.Join(names, ";")
 	return c
 }
